@@ -341,6 +341,8 @@ def gen_xl_module(rnd, profile):
     for (t, mut) in globals_[len(imp_glob):]:
         m.global_(t, mut, BodyGen(r, [], [], False, [], {}).const(t))
     fidx = []
+    name_pool = []
+    rd = random.Random(profile.get("dupseed", 0))
     for i, (sig, locs, code) in enumerate(bodies):
         ex = None
         if r.random() < profile.get("export_p", 0.5):
@@ -348,6 +350,11 @@ def gen_xl_module(rnd, profile):
         nm = None
         if profile.get("names") and r.random() < 0.7:
             nm = wild_name(r, set(), 24, tame=profile.get("tame_names", True))
+            # producers emit the same debug name for several functions: runs of 2, 3 and more equal names
+            if name_pool and rd.random() < profile.get("dupnames", 0.0):
+                nm = rd.choice(name_pool)
+            else:
+                name_pool.append(nm)
         fidx.append(m.func(sig[0], sig[1], code, locals_=locs, export=ex, nm=nm))
     if table_types and fidx:
         m.elem([("i32.const", 0)], [r.choice(fidx) for _ in range(r.randrange(1, 8))])
@@ -389,6 +396,8 @@ def gen_xlcorpus(outdir, seed, count):
         r3 = random.Random(seed * 7919 + i)
         if r3.random() < 0.5:
             prof["aligned"] = [(r3.choice([64, 128, 192, 256, 320, 576, 127, 129, 191, 193, 100]), r3.randrange(64), r3.randrange(64)) for _ in range(r3.choice([1, 2, 3]))]
+        prof["dupnames"] = r3.choice([0.0, 0.0, 0.3, 0.8])
+        prof["dupseed"] = r3.getrandbits(32)
         st = r.getstate()
         m, bodies, sigs, nimp = gen_xl_module(r, prof)
         n_aligned = len(prof.get("aligned", []))
